@@ -8,15 +8,12 @@ import (
 
 	"go.lsp.dev/protocol"
 
-	"github.com/juev/hledger-lsp/internal/analyzer"
 	"github.com/juev/hledger-lsp/internal/zzverif"
 )
 
 func init() {
 	zzverif.Register("VerifC20Hover", VerifC20Hover)
 	zzverif.Register("VerifC20HoverDeep", VerifC20HoverDeep)
-	zzverif.Register("VerifC20Sums", VerifC20Sums)
-	zzverif.Register("VerifC20SumsDeep", VerifC20SumsDeep)
 	zzverif.Register("VerifC20Counts", VerifC20Counts)
 }
 
@@ -449,46 +446,6 @@ func verifC20Hover(deep bool) {
 
 func VerifC20Hover()     { verifC20Hover(false) }
 func VerifC20HoverDeep() { verifC20Hover(true) }
-
-// VerifC20Sums: symbolic digits; the balances the hover is built from equal the exact sums.
-func verifC20Sums(deep bool) {
-	w := c20Build(true, deep, 3, false)
-	req := 0
-	if w.n > 1 {
-		req = zzverif.Choice("req", 2)
-	}
-	workspace := zzverif.Choice("workspace", 2) == 1
-	s, uri := w.serve(req, workspace, false)
-	resolved := s.getWorkspaceResolved(uri)
-	zzverif.Assert(resolved != nil, "a resolved journal exists after the background run")
-	if resolved == nil {
-		return
-	}
-	txs := resolved.AllTransactions()
-	bal := analyzer.CalculateAccountBalancesFromTransactions(txs)
-	exp := w.expect(w.inScope(req, workspace))
-	got := bal["a:b"]
-	zzverif.Assert(len(got) == len(exp.comms), "one balance per commodity posted to the account")
-	for _, c := range exp.comms {
-		d, ok := got[c]
-		zzverif.Assert(ok, "commodity present in the balances")
-		if !ok {
-			continue
-		}
-		e := int(d.Exponent())
-		zzverif.Assert(e <= 0 && e >= -12, "balance scale within the written precision")
-		if e > 0 || e < -12 {
-			continue
-		}
-		lhs := new(big.Int).Mul(d.Coefficient(), c20Pow10(12+e))
-		zzverif.Assert(lhs.Cmp(exp.sum[c]) == 0, "balance equals the exact sum of the amounts posted to the account")
-	}
-	zzverif.Assert(countPostingsForAccountInTransactions("a:b", txs) == exp.nAll, "posting count over the tree")
-	zzverif.Reach("C20.sums")
-}
-
-func VerifC20Sums()     { verifC20Sums(false) }
-func VerifC20SumsDeep() { verifC20Sums(true) }
 
 // VerifC20Counts: payee, tag and tag-value hovers show exact counts; amount hover shows the exact quantity and cost.
 func VerifC20Counts() {
